@@ -183,6 +183,26 @@ def e2e_molecule_indels(args):
         def deci(txt):
             return int(round(float(txt) * 10))
 
+        first = {r["q"]: r for r in res["files"]["_1"]["records"] if not r.get("malformed")}
+        second = {r["q"]: r for r in res["files"]["_2"]["records"] if not r.get("malformed")}
+        written, merged = {}, set()
+        for ln in open(target):
+            if ln.startswith("#") or not ln.strip():
+                continue
+            c = ln.rstrip("\n").split("\t")
+            if (len(c) > 8 and int(c[8]) != 1) or "," in c[4]:
+                merged |= {int(x) for x in c[4].split(",")}
+            else:
+                written[int(c[4])] = {"type": c[0], "chr": int(c[1]), "rs": deci(c[2]), "re": deci(c[3]), "qid": int(c[4]),
+                                      "qs": deci(c[5]), "qe": deci(c[6]), "len": deci(c[7])}
+        out["finder_lines"] = []
+        for q, jr in jrec.items():
+            if q in merged or q not in qmap or q not in first or q not in second:
+                continue
+            out["finder_lines"].append({"fin": {"J": jr["pairs"], "O": first[q]["pairs"], "R": second[q]["pairs"],
+                                                "refx": ref["x"], "qryx": qmap[q]["x"], "lo": 20000, "hi": 1000000,
+                                                "qid": q, "chr": int(jr["r"])},
+                                        "obs": [written[q]] if q in written else [], "tag": {"input": idx, "query": q}})
         for ln in open(target):
             if ln.startswith("#") or not ln.strip():
                 continue
@@ -289,6 +309,27 @@ def run(ctx: Ctx):
     for r in e2e:
         if r["status"].startswith("finder_raised"):
             ctx.add_drift(1, {"end_to_end": r["status"]})
+    # the finder itself against Finder.tla: per joined query the junction search and the call are replayed by TLC
+    fl = [ln for r in e2e for ln in r.get("finder_lines", [])]
+    if fl:
+        mcf = tlc.run_tlc("MC_Finder", "MC_Finder.cfg", ctx.workdir, workers=6)
+        ctx.add_model("MC_Finder", mcf)
+        xa = tlc.run_tlc("MC_Finder", "MC_Finder_x_abort.cfg", ctx.workdir, workers=2, allow_violation=True)
+        if xa.invariant_violated != "Inv_FinderNoAbort":
+            raise tlc.MachineryError("MC_Finder_x_abort: the abort of the molecule finder is no longer reachable in the model")
+        before = dict(batch.KIND_COUNTS)
+        vf, rf = batch.validate("Trace_Finder", "Trace_Finder.cfg", ctx.workdir,
+                                [{k: v for k, v in x.items() if k != "tag"} for x in fl], name="finder.ndjson")
+        ctx.add_traces(len(fl))
+        ctx.notes["molecule_finder_replayed"] = {"joined_queries": len(fl), "states": rf.distinct,
+                                                 "situations": {k: v - before.get(k, 0) for k, v in batch.KIND_COUNTS.items()
+                                                                if k in ("done", "aborted", "call", "no_difference")
+                                                                and v - before.get(k, 0)}}
+        for tid, (failed, drift) in sorted(vf.items()):
+            if failed:
+                ctx.violation(fl[tid], failed, "", what=f"molecule finder {fl[tid]['tag']} obs={fl[tid]['obs']}")
+            elif drift:
+                ctx.add_drift(1, {"molecule_finder": fl[tid]["tag"], "drift": drift})
     for ln in flank:
         ctx.nontrivial(("flank", ln["tag"]["input"], ln["tag"]["query"]))
     records += flank
